@@ -14,11 +14,22 @@
                            complete file whose bytes hash to the name)
     restart_preserves_inv, restart_untouched
     crash_safe             the property's first two clauses
-  Partial: the pull case of `exec_seqOK`/`crash_safe` assumes `NoPullDebris st` (no `-partial` file or
-  part record in the prior state: true after every start-up that pruned).  Resuming from debris is
-  covered by the correspondence (L1) and by real kills (L2) only.  The third clause (re-running
-  converges) is not a theorem here: the model's rerun prediction is compared with the real rerun at
-  every crash point (L1 `rerun` lines) and F19b is its Lean-checked counterexample.
+  Both variants of the code are in the model (`Env.atomicMan`, `Env.atomicPart`: manifests / part
+  records written in place (pinned tree) or by temp + rename (proposed fixes C12-F19a/b)); the
+  theorems above hold for both.  For the fixed manifest variant additionally:
+    atomic_manifest_old_or_new   after any crash + restart every manifest FILE is the old one or the one
+                                 the completed operation leaves
+    atomic_never_torn            `Manifests(false)` keeps succeeding (prune never disabled by a crash)
+    atomic_replaced_model_kept   a readable name stays readable (old or new manifest) unless it is deleted
+    rerun_converges_partial      upload/copy/delete: rerun after crash+restart leaves exactly the manifest
+                                 files of an uninterrupted run, and the invariant
+    rerun_converges_pull_partial pull: same, guarded by "the rerun succeeds iff the uninterrupted pull does"
+  Partial: the pull case of `exec_seqOK`/`crash_safe` assumes `PullPre` (debris of earlier pulls is
+  CONSISTENT: a readable part record describes the blob and the bytes it declares complete are in the
+  `-partial` file; any store without debris satisfies it, `opOK_of_noDebris`); that crashes of pull
+  re-establish `PullPre` is not proved (L1/L2 on stores S2–S4 cover it).  `rerun_converges` for create is
+  not a theorem (client re-upload after prune, recorded blob size needs collision-freeness); F19a/F19b are
+  the Lean-checked counterexamples for the pinned variant.
 -/
 import OllamaVerif.Proofs.StoreCrash
 namespace OllamaVerif.C12
@@ -92,6 +103,152 @@ theorem crash_safe {hash : Bytes → Digest} {env : Env} (henv : EnvOK hash env)
   have hw : ∀ e ∈ (op.exec env st).effs, ¬ writesMan e n :=
     fun e he hwm => hn (manOnly_exec env op st e he n hwm)
   exact (seq_untouched hinv hpOK (crashPrefix_writes hp hw)).trans (StoreCrash.restart_untouched n _)
+
+/-! ## the fixed variant (`env.atomicMan`: manifests written by temp + rename, C12-F19a) -/
+
+/-- **Fixed variant, clause 1 strengthened.**  Whatever the operation and wherever it is killed, after
+restart every manifest FILE is either exactly as it was before the operation or exactly as the
+completed operation leaves it: the model being replaced by create/copy/pull is never lost. -/
+theorem atomic_manifest_old_or_new {env : Env} (hat : env.atomicMan = true) (op : Op) (st : Store)
+    (p : List Effect) (hp : CrashPrefix (op.exec env st).effs p) (n : Name) :
+    get (restart (run p st)) (.man n) = get st (.man n) ∨
+    get (restart (run p st)) (.man n) = get (run (op.exec env st).effs st) (.man n) := by
+  rw [(StoreCrash.restart_untouched n (run p st)).1]
+  exact old_or_new (amo_exec env hat op st) hp n
+
+/-- **Fixed variant: no crash ever tears a manifest.**  If `Manifests(false)` succeeds before the
+operation it succeeds after any crash of it (so the start-up prune is never disabled by a crash). -/
+theorem atomic_never_torn {env : Env} (hat : env.atomicMan = true) (op : Op) (st : Store)
+    (hall : allReadable st = true) (p : List Effect) (hp : CrashPrefix (op.exec env st).effs p) :
+    allReadable (restart (run p st)) = true := by
+  rw [allReadable_iff] at hall ⊢
+  intro n c hg
+  rcases atomic_manifest_old_or_new hat op st p hp n with h | h
+  · rw [h] at hg; exact hall n c hg
+  · rw [h] at hg
+    rcases final_man env hat op st n with h' | ⟨m, h'⟩ | ⟨_, h'⟩ | ⟨src, c', _, hsrc, h'⟩
+    · rw [h'] at hg; exact hall n c hg
+    · rw [h'] at hg; injection hg with hg; exact ⟨m, hg.symm⟩
+    · rw [h'] at hg; cases hg
+    · rw [h'] at hg; injection hg with hg; subst hg; exact hall src c' hsrc
+
+/-- **Fixed variant: the replaced model is never lost.**  A name that was readable before the
+operation is readable after any crash of it (unless the operation is the deletion of that name) —
+with its old manifest or with the manifest the completed operation gives it. -/
+theorem atomic_replaced_model_kept {env : Env} (hat : env.atomicMan = true) (op : Op) (st : Store)
+    (hall : allReadable st = true) (p : List Effect) (hp : CrashPrefix (op.exec env st).effs p)
+    (n : Name) (mo : Man) (hr : readable st n = some mo) (hdel : op ≠ .delete n) :
+    ∃ m, readable (restart (run p st)) n = some m ∧
+      (m = mo ∨ readable (run (op.exec env st).effs st) n = some m) := by
+  have hold : get st (.man n) = some (.man mo) := readable_eq_some.mp hr
+  rcases atomic_manifest_old_or_new hat op st p hp n with h | h
+  · exact ⟨mo, by rw [readable_eq_some, h]; exact hold, Or.inl rfl⟩
+  · rcases final_man env hat op st n with h' | ⟨m, h'⟩ | ⟨hop, _⟩ | ⟨src, c, _, hsrc, h'⟩
+    · exact ⟨mo, by rw [readable_eq_some, h, h']; exact hold, Or.inl rfl⟩
+    · exact ⟨m, by rw [readable_eq_some, h, h'], Or.inr (readable_eq_some.mpr h')⟩
+    · exact absurd hop hdel
+    · obtain ⟨m, rfl⟩ := (allReadable_iff.mp hall) src c hsrc
+      exact ⟨m, by rw [readable_eq_some, h, h'], Or.inr (readable_eq_some.mpr h')⟩
+
+/-- operations for which convergence of the repeated operation is proved -/
+def rerunGuard : Op → Bool
+  | .upload .. => true
+  | .copy .. => true
+  | .delete .. => true
+  | _ => false
+
+/-- **Fixed variant, clause 3 (partial: upload, copy, delete).**  Kill the operation anywhere, restart,
+run it again: every manifest file is exactly what an uninterrupted run from the original store
+leaves, and the result satisfies the invariant (every readable manifest's layers are present and hash
+to their names).  For delete, "run it again" includes the case where it reports `not found`
+(`ok = false`, no effects).  Not covered here: create (needs the client to re-upload blobs the
+start-up prune removed and collision-freeness of `hash` for the recorded size) and pull (needs the
+registry to serve every digest of the manifest again); for those the model's rerun prediction is
+compared with the real rerun at every crash point (L1) and the clause is monitored on the real code (L2). -/
+theorem rerun_converges_partial {hash : Bytes → Digest} {env : Env} (henv : EnvOK hash env)
+    (hat : env.atomicMan = true) {st : Store} (hinv : Inv hash st) (op : Op) (hg : rerunGuard op = true)
+    (p : List Effect) (hp : CrashPrefix (op.exec env st).effs p) :
+    (∀ n, get (run (op.exec env (restart (run p st))).effs (restart (run p st))) (.man n) =
+          get (run (op.exec env st).effs st) (.man n)) ∧
+    Inv hash (run (op.exec env (restart (run p st))).effs (restart (run p st))) := by
+  have hop : ∀ st', OpOK hash st' op := by intro st'; cases op <;> first | trivial | simp [rerunGuard] at hg
+  have hcs := crash_safe henv hinv op (hop st) p hp
+  refine ⟨?_, StoreCrash.seq_preserves_inv hcs.2.1 (exec_seqOK henv hcs.2.1 op (hop _))⟩
+  generalize hst1 : restart (run p st) = st1 at hcs ⊢
+  -- each manifest file of the restarted store is the old one or the one of the completed operation
+  have G : ∀ n, get st1 (.man n) = get st (.man n) ∨
+      get st1 (.man n) = get (run (op.exec env st).effs st) (.man n) := by
+    intro n; rw [← hst1]; exact atomic_manifest_old_or_new hat op st p hp n
+  intro n'
+  cases op with
+  | upload k d body =>
+    simp only [Op.exec] at G ⊢
+    rw [upload_final, upload_final]
+    rcases G n' with h | h
+    · exact h
+    · rw [h, upload_final]
+  | copy src dst =>
+    simp only [Op.exec] at G ⊢
+    have Gs := G src
+    rw [copy_final env hat] at Gs
+    have hsrc : get st1 (.man src) = get st (.man src) := by
+      by_cases hsd : src = dst
+      · simpa [hsd] using Gs
+      · have : ¬ (src ≠ dst ∧ src = dst ∧ (get st (.man src)).isSome = true) := fun h => hsd h.2.1
+        simpa [this] using Gs
+    have Gn := G n'
+    rw [copy_final env hat] at Gn
+    rw [copy_final env hat, copy_final env hat, hsrc]
+    split
+    · rfl
+    · rename_i hc; simpa [hc] using Gn
+  | delete n =>
+    simp only [Op.exec] at G ⊢
+    have Gn := G n'
+    have Gd := G n
+    rw [delete_final] at Gn Gd
+    rw [delete_final, delete_final]
+    by_cases hn : n' = n
+    · subst hn
+      cases hr : readable st n' with
+      | some m =>
+        simp only [hr, Option.isSome_some, and_self, ↓reduceIte, or_self] at Gd ⊢
+        rcases Gd with h | h
+        · have : readable st1 n' = some m := by
+            rw [readable_eq_some, h]; exact readable_eq_some.mp hr
+          simp [this]
+        · have : readable st1 n' = none := by unfold readable; rw [h]
+          simp [this, h]
+      | none =>
+        simp only [hr, Option.isSome_none, Bool.false_eq_true, false_and, ↓reduceIte, or_self] at Gd ⊢
+        have : readable st1 n' = none := by
+          unfold readable at hr ⊢; rw [Gd]; exact hr
+        simp [this, Gd]
+    · simp only [hn, and_false, ↓reduceIte, or_self] at Gn ⊢
+      exact Gn
+  | create n ups file datas cfg => simp [rerunGuard] at hg
+  | pull reg n m => simp [rerunGuard] at hg
+
+/-- **Fixed variant, clause 3 for pull (partial: guard = the repeated pull succeeds iff the
+uninterrupted one does, e.g. the registry still serves the blobs).**  Then every manifest file after
+the repeated pull equals the one after an uninterrupted pull from the original store. -/
+theorem rerun_converges_pull_partial {env : Env} (hat : env.atomicMan = true)
+    (reg : Digest → Option Bytes) (n : Name) (m : Man) (st : Store) (p : List Effect)
+    (hp : CrashPrefix ((Op.pull reg n m).exec env st).effs p)
+    (hok : ((Op.pull reg n m).exec env (restart (run p st))).ok = ((Op.pull reg n m).exec env st).ok) :
+    ∀ n', get (run ((Op.pull reg n m).exec env (restart (run p st))).effs (restart (run p st))) (.man n') =
+          get (run ((Op.pull reg n m).exec env st).effs st) (.man n') := by
+  intro n'
+  have G := atomic_manifest_old_or_new hat (.pull reg n m) st p hp n'
+  generalize restart (run p st) = st1 at G hok ⊢
+  simp only [Op.exec] at G hok ⊢
+  rw [pull_final env hat] at G
+  rw [pull_final env hat, pull_final env hat, hok]
+  cases hc : ((pull env reg n m st).ok && decide (n' = n)) with
+  | true => simp
+  | false =>
+    simp only [hc, cond_false, or_self] at G ⊢
+    exact G
 
 /-! ## witnesses of the defects the model shares with the code (F19) -/
 
